@@ -173,6 +173,11 @@ func monMap(m *omap, write bool, fr *frame) {
 	if !mon.on || m == nil {
 		return
 	}
+	if fieldLogOn {
+		if name, ok := globalMaps[m]; ok {
+			logNamedAccess("global", name+"(map contents)", write)
+		}
+	}
 	if what, ok := mon.maps[m]; ok {
 		mon.lastAddr = nil
 		mon.access(write, what+" (map)", fr)
@@ -400,6 +405,9 @@ func noteFieldAddr(instrType types.Type, st structure, field int, cell *value) {
 	if nt.Obj().Name() == "dataStore" {
 		return // only its mutex is of interest here
 	}
+	if fieldLabel == "connect" && (nt.Obj().Name() == "clientState" || nt.Obj().Name() == "clientCxn") {
+		return // the new connection's own fields are not shared yet
+	}
 	pendingField[cell] = nt.Obj().Name() + "." + stt.Field(field).Name()
 	switch {
 	case nt.Obj().Name() != "clientState" && nt.Obj().Name() != "clientCxn":
@@ -416,7 +424,35 @@ func noteFieldAddr(instrType types.Type, st structure, field int, cell *value) {
 	}
 }
 
+// package-level variables of the package under test (clientId, clients,
+// signals ...): cell -> name, and for map-typed ones the map -> name
+var (
+	globalCells = map[*value]string{}
+	globalMaps  = map[*omap]string{}
+)
+
+func logNamedAccess(who, name string, write bool) {
+	var locks []string
+	for mu := range mon.held {
+		if n, ok := mutexNames[mu]; ok {
+			locks = append(locks, n)
+		} else {
+			locks = append(locks, "another-object's-mu")
+		}
+	}
+	sort.Strings(locks)
+	fa := fieldAccess{who, name, write, strings.Join(locks, ","), fieldLabel}
+	fieldLog[fmt.Sprintf("%s|%s|%v|%s|%s", fa.Who, fa.Field, fa.Write, fa.Locks, fa.Label)] = fa
+}
+
 func logFieldAccess(cell *value, write bool) {
+	if gname, isGlobal := globalCells[cell]; isGlobal {
+		logNamedAccess("global", "var "+gname, write)
+		if m, isMap := (*cell).(*omap); isMap && m != nil {
+			globalMaps[m] = gname
+		}
+		return
+	}
 	name, ok := pendingField[cell]
 	if !ok {
 		return
@@ -450,6 +486,22 @@ func init() {
 		if p, ok := a[1].(*value); ok && p != nil {
 			if st, ok := (*p).(structure); ok && len(st) > 0 {
 				ownStructs[&st[0]] = true
+			}
+		}
+		globalCells = map[*value]string{}
+		globalMaps = map[*omap]string{}
+		for gname, mem := range fr.i.mainPkg.Members {
+			g, ok := mem.(*ssa.Global)
+			if !ok || strings.HasPrefix(gname, "v") || strings.HasPrefix(gname, "init$") {
+				continue
+			}
+			switch g.Type().(*types.Pointer).Elem().Underlying().(type) {
+			case *types.Basic, *types.Map:
+				cell := fr.i.globalAddr(g)
+				globalCells[cell] = gname
+				if m, isMap := (*cell).(*omap); isMap && m != nil {
+					globalMaps[m] = gname
+				}
 			}
 		}
 		mutexNames = map[*value]string{}
